@@ -124,6 +124,9 @@ HBegin(p) == HBeginV(p, FreshView(p))
 ViewAfter(p, f) == [view[p] EXCEPT !.head = IF f = "HEAD" THEN head ELSE @,
                                    !.loose = IF f = "m" THEN loose ELSE @,
                                    !.packed = IF f = "packed" THEN packed ELSE @]
+\* between p's first write and its return another updater may complete what p's own last write left undone (a remove is
+\* two writes): the effect is judged "bad" only if it was never there from p's last write to its return
+HSettle(p) == eff' = [eff EXCEPT ![p] = IF wrote[p] /\ @ = "bad" /\ EffOf(p, head, loose, packed) = "ok" THEN "ok" ELSE @]
 \* a picture is an observation of ref n once it covers the files that determine n's value
 \* (remove_if_equals does not follow the symbolic ref: HEAD itself suffices)
 Known(v, j) == LET m == v.loose # "unread" /\ (v.loose # "absent" \/ v.packed # "unread") IN
@@ -133,7 +136,7 @@ HRead(p, f) == LET v == ViewAfter(p, f) IN
                /\ view' = [view EXCEPT ![p] = v]
                /\ seen' = [seen EXCEPT ![p] = IF Known(v, job[p]) /\ ~wrote[p]
                                                 THEN @ \cup {ObsOf(v.head, v.loose, v.packed, job[p].name)} ELSE @]
-               /\ UNCHANGED <<linval, eff, wrote>>
+               /\ HSettle(p) /\ UNCHANGED <<linval, wrote>>
 \* p performed a mutating operation on a ref file (new disk = primed variables)
 HWrite(p) == /\ linval' = [linval EXCEPT ![p] = IF @ = NoObs THEN ObsNow(p) ELSE @]
              /\ wrote' = [wrote EXCEPT ![p] = TRUE]
